@@ -58,6 +58,8 @@ def cases(tier, seed):
             for rep in ("dense", "csr", "sympy"):
                 if not qk or rep != "csr" or not st["fd"]:
                     out.append(dict(st, cls="shared-level", pos=[bi, bj], repr=rep, total=3))
+                    if sum(st["sizes"]) >= 3 and not st["fd"]:
+                        out.append(dict(st, cls="shared-level", pos=[bi, bj], repr=rep, total=3, decouple=True))
     # (c) mask selecting a degenerate pair / (d) asymmetric mask in Hermitian mode
     for st in lattice.structures(3, hermitian=True, ks=(1,), patterns=("dense",), supports={1: [[(1,)]]}):
         if st["fd"]:
@@ -209,7 +211,7 @@ def run_case(case):
 
 
 def describe_short(case):
-    keys = ("sizes", "E", "fd", "pos", "repr", "hermitian", "defect", "order", "nsym", "rel", "big", "ops", "others", "bad", "nlev", "split", "drive", "blocks", "which", "solver", "seq", "tri")
+    keys = ("sizes", "E", "fd", "pos", "repr", "hermitian", "defect", "order", "nsym", "rel", "big", "ops", "others", "bad", "nlev", "split", "drive", "blocks", "which", "solver", "seq", "tri", "decouple")
     return {k: case[k] for k in keys if k in case}
 
 
@@ -275,6 +277,15 @@ def run_shared_level(case):
             E[a] = list(shared)
     cfg = dict(case, E=E)
     values = lattice.gen_values(cfg, case["seed"])
+    if case.get("decouple"):
+        # the states sharing the level are not coupled directly: the ill-defined denominator is first needed when
+        # they get coupled through a third state at second order
+        for m in values.values():
+            for a in range(off[bi], off[bi + 1]):
+                for b_ in range(off[bj], off[bj + 1]):
+                    if E[a] == shared and E[b_] == shared:
+                        m[a, b_] = 0
+                        m[b_, a] = 0
     Hd, kwargs = lattice.library_input(cfg, values)
     status, res, _ = build_and_probe(Hd, kwargs, None, case["total"], exact)
     V = []
